@@ -341,13 +341,17 @@ def n7_enumerate_collect(src, log):
         log.append(f"N7 E.enumerate().collect() -> vx_enumerate(E.collect()) [E = {' '.join(chain.split())[:70]}]")
 
 
-def n3_cast(src, log, target, helper):
+def n3_cast(src, log, target, helper, only=None):
     """E as <target>  ->  helper(E)   for a postfix-chain operand E"""
     while True:
         toks = lex(src)
         hit = None
         for i, t in enumerate(toks):
             if t.text == "as" and t.kind == "ident" and i + 1 < len(toks) and toks[i + 1].text == target:
+                if only is not None:
+                    s0 = _chain_start(toks, i)
+                    if not src[toks[s0].start:toks[i - 1].end].startswith(only):
+                        continue
                 hit = i
                 break
         if hit is None:
@@ -493,8 +497,8 @@ def normalise(src, rules, log):
         elif r.startswith("n6:"):
             src = n6_name_receiver(src, log, r.split(":")[1])
         elif r.startswith("n3:"):
-            _, target, helper = r.split(":")
-            src = n3_cast(src, log, target, helper)
+            parts = r.split(":")
+            src = n3_cast(src, log, parts[1], parts[2], parts[3] if len(parts) > 3 else None)
         else:
             raise Unsupported(f"unknown rule {r}")
     return src
